@@ -192,8 +192,8 @@ def run(ctx: Ctx) -> None:
     ctx.rule = ("rep: one case per (grid, other grid, world vector): 16 axes conversions, resampling and image warping in each of the 4 representations, "
                 "per-field-grid batches, normalize/denormalize; exp: every hull-invariant affine velocity field of the C11 lattice exponentiated in each "
                 "of the 4 representations")
-    ctx.tlc("MC_Flow", FLOW_CFG.format(emit="FALSE", inv="INVARIANT Laws\n"), label="laws", timeout=3000)
-    res = ctx.tlc("MC_Flow", FLOW_CFG.format(emit="TRUE", inv=""), label="emit", timeout=3000)
+    ctx.tlc("MC_Flow", FLOW_CFG.format(T="Q" if ctx.tier == "quick" else "T", emit="FALSE", inv="INVARIANT Laws\n"), label="laws", timeout=3000)
+    res = ctx.tlc("MC_Flow", FLOW_CFG.format(T="Q" if ctx.tier == "quick" else "T", emit="TRUE", inv=""), label="emit", timeout=3000)
     cases = json_lines(res, key=None)
     reps = [c for c in cases if c["kind"] == "rep"]
     exps = [c for c in cases if c["kind"] == "exp"]
